@@ -2024,4 +2024,668 @@ theorem mpz_popcount_eq (u : Z) (hu : u.WF) :
     have : Int.negSucc (val u.mag - 1) < 0 := Int.negSucc_lt_zero _
     rw [if_pos this]
 
+theorem ctzAux_spec (k : Nat) : ∀ x, x % 2 ^ k ≠ 0 →
+    ctzAux k x < k ∧ x.testBit (ctzAux k x) = true ∧ ∀ t, t < ctzAux k x → x.testBit t = false := by
+  induction k with
+  | zero => intro x h; simp [Nat.mod_one] at h
+  | succ k ih =>
+    intro x h
+    unfold ctzAux
+    by_cases h1 : x % 2 = 1
+    · rw [if_pos h1]
+      refine ⟨by omega, by rw [Nat.testBit_zero]; simp [h1], fun t ht => by omega⟩
+    · rw [if_neg h1]
+      have hx2 : (x / 2) % 2 ^ k ≠ 0 := by
+        intro h0
+        apply h
+        have e : x % 2 ^ (k + 1) = x % 2 + 2 * ((x / 2) % 2 ^ k) := by
+          rw [pow_succ', Nat.mod_mul, ]
+        rw [e, h0]; omega
+      obtain ⟨i1, i2, i3⟩ := ih (x / 2) hx2
+      refine ⟨by omega, ?_, ?_⟩
+      · rw [show 1 + ctzAux k (x / 2) = ctzAux k (x / 2) + 1 by omega, Nat.testBit_add_one]; exact i2
+      · intro t ht
+        cases t with
+        | zero => rw [Nat.testBit_zero]; simp [h1]
+        | succ t => rw [Nat.testBit_add_one]; exact i3 t (by omega)
+
+/-- count_trailing_zeros on a non-zero limb -/
+theorem ctz_spec (x : Nat) (h0 : x ≠ 0) (hx : x < B) :
+    ctz x < 64 ∧ x.testBit (ctz x) = true ∧ ∀ t, t < ctz x → x.testBit t = false := by
+  unfold ctz
+  apply ctzAux_spec 64 x
+  rw [Nat.mod_eq_of_lt (by unfold B at hx; exact hx)]; exact h0
+
+theorem testBit_maskHi (k t : Nat) (hk : k ≤ 64) : (maskHi k).testBit t = (decide (k ≤ t) && decide (t < 64)) := by
+  unfold maskHi B
+  have e : 2 ^ 64 - 2 ^ k = 2 ^ k * (2 ^ (64 - k) - 1) := by
+    rw [Nat.mul_sub, ← pow_add, Nat.mul_one]; congr 2; omega
+  rw [e, Nat.testBit_two_pow_mul, Nat.testBit_two_pow_sub_one]
+  by_cases h1 : k ≤ t <;> by_cases h2 : t < 64 <;> simp [h1, h2] <;> omega
+
+theorem testBit_maskLo (k t : Nat) : (maskLo k).testBit t = decide (t < k) := by
+  unfold maskLo; exact Nat.testBit_two_pow_sub_one k t
+
+theorem maskHi_lt (k : Nat) : maskHi k < B := by
+  unfold maskHi; have := Nat.two_pow_pos k; have := B_pos; omega
+
+theorem maskLo_lt (k : Nat) (hk : k ≤ 64) : maskLo k < B := by
+  unfold maskLo B
+  have : 2 ^ k ≤ 2 ^ 64 := Nat.pow_le_pow_right (by decide) hk
+  have := Nat.two_pow_pos k; omega
+
+theorem skipZero_spec : ∀ (l : List Nat) (i0 : Nat),
+    match skipZero l i0 with
+    | some (i, x) => ∃ k, i = i0 + k ∧ k < l.length ∧ l.getD k 0 = x ∧ x ≠ 0 ∧ ∀ j, j < k → l.getD j 0 = 0
+    | none => ∀ j, l.getD j 0 = 0
+  | [], i0 => by simp [skipZero]
+  | x :: xs, i0 => by
+    unfold skipZero
+    by_cases hx : x = 0
+    · rw [if_pos hx]
+      have ih := skipZero_spec xs (i0 + 1)
+      cases hs : skipZero xs (i0 + 1) with
+      | none =>
+        rw [hs] at ih; simp only at ih ⊢
+        intro j; cases j with
+        | zero => simpa using hx
+        | succ j => simpa using ih j
+      | some p =>
+        obtain ⟨i, y⟩ := p
+        rw [hs] at ih; simp only at ih ⊢
+        obtain ⟨k, e1, e2, e3, e4, e5⟩ := ih
+        refine ⟨k + 1, by omega, by simpa using e2, by simpa using e3, e4, ?_⟩
+        intro j hj; cases j with
+        | zero => simpa using hx
+        | succ j => simpa using e5 j (by omega)
+    · rw [if_neg hx]
+      exact ⟨0, rfl, by simp, by simp, hx, fun j hj => by omega⟩
+
+theorem skipOnes_spec : ∀ (l : List Nat) (i0 : Nat),
+    match skipOnes l i0 with
+    | some (i, x) => ∃ k, i = i0 + k ∧ k < l.length ∧ l.getD k 0 = x ∧ x ≠ B - 1 ∧ ∀ j, j < k → l.getD j 0 = B - 1
+    | none => ∀ j, j < l.length → l.getD j 0 = B - 1
+  | [], i0 => by simp [skipOnes]
+  | x :: xs, i0 => by
+    unfold skipOnes
+    by_cases hx : x = B - 1
+    · rw [if_pos hx]
+      have ih := skipOnes_spec xs (i0 + 1)
+      cases hs : skipOnes xs (i0 + 1) with
+      | none =>
+        rw [hs] at ih; simp only at ih ⊢
+        intro j hj; cases j with
+        | zero => simpa using hx
+        | succ j => simpa using ih j (by simpa using hj)
+      | some p =>
+        obtain ⟨i, y⟩ := p
+        rw [hs] at ih; simp only at ih ⊢
+        obtain ⟨k, e1, e2, e3, e4, e5⟩ := ih
+        refine ⟨k + 1, by omega, by simpa using e2, by simpa using e3, e4, ?_⟩
+        intro j hj; cases j with
+        | zero => simpa using hx
+        | succ j => simpa using e5 j (by omega)
+    · rw [if_neg hx]
+      exact ⟨0, rfl, by simp, by simp, hx, fun j hj => by omega⟩
+
+/-- bit `j` of a limb list whose first limb sits at limb index `p` (zero outside the list) -/
+def limbBit (L : List Nat) (p j : Nat) : Bool := (L.getD (j / 64 - p) 0).testBit (j % 64)
+
+theorem limbBit_first (x : List Nat) (l : Nat) (p j : Nat) (h : j / 64 = p) :
+    limbBit (l :: x) p j = l.testBit (j % 64) := by
+  unfold limbBit; rw [h, Nat.sub_self]; rfl
+
+theorem limbBit_rest (x : List Nat) (l : Nat) (p j : Nat) (h : p < j / 64) :
+    limbBit (l :: x) p j = (x.getD (j / 64 - (p + 1)) 0).testBit (j % 64) := by
+  unfold limbBit
+  have : j / 64 - p = (j / 64 - (p + 1)) + 1 := by omega
+  rw [this]; rfl
+
+/-- scan1.c:51-72 / scan0.c:92-113 -/
+theorem seekOne_spec (limb : Nat) (rest : List Nat) (p start : Nat) (hl : Limbs (limb :: rest))
+    (hp : start / 64 = p) :
+    match seekOne limb rest p start with
+    | some r => start ≤ r ∧ limbBit (limb :: rest) p r = true ∧
+        (∀ j, start ≤ j → j < r → limbBit (limb :: rest) p j = false) ∧ r / 64 < p + 1 + rest.length
+    | none => ∀ j, start ≤ j → limbBit (limb :: rest) p j = false := by
+  have ⟨hlimb, hrest⟩ := Limbs_cons.mp hl
+  have hs64 : start % 64 < 64 := Nat.mod_lt _ (by decide)
+  have hstart : start = 64 * p + start % 64 := by omega
+  have hmlt : limb &&& maskHi (start % 64) < B := lt_of_le_of_lt Nat.and_le_left hlimb
+  have hmbit : ∀ t, (limb &&& maskHi (start % 64)).testBit t =
+      (limb.testBit t && (decide (start % 64 ≤ t) && decide (t < 64))) := by
+    intro t; rw [Nat.testBit_and, testBit_maskHi _ _ (by omega)]
+  -- bits of the first limb at or above start%64 vanish when the masked limb is zero
+  have hfirst0 : limb &&& maskHi (start % 64) = 0 → ∀ j, start ≤ j → j / 64 = p →
+      limbBit (limb :: rest) p j = false := by
+    intro h0 j hj hjp
+    rw [limbBit_first _ _ _ _ hjp]
+    have := hmbit (j % 64)
+    rw [h0, Nat.zero_testBit] at this
+    have h1 : start % 64 ≤ j % 64 := by omega
+    have h2 : j % 64 < 64 := Nat.mod_lt _ (by decide)
+    simp [h1, h2] at this; exact this
+  unfold seekOne
+  simp only
+  by_cases hm : limb &&& maskHi (start % 64) = 0
+  · rw [if_pos hm]
+    by_cases hr : rest.length = 0
+    · rw [if_pos hr]
+      simp only
+      intro j hj
+      by_cases hjp : j / 64 = p
+      · exact hfirst0 hm j hj hjp
+      · rw [limbBit_rest _ _ _ _ (by omega)]
+        have : rest = [] := List.eq_nil_of_length_eq_zero hr
+        rw [this]; simp
+    · rw [if_neg hr]
+      have hsz := skipZero_spec rest (p + 1)
+      cases hs : skipZero rest (p + 1) with
+      | none =>
+        rw [hs] at hsz; simp only [Option.map_none] at hsz ⊢
+        intro j hj
+        by_cases hjp : j / 64 = p
+        · exact hfirst0 hm j hj hjp
+        · rw [limbBit_rest _ _ _ _ (by omega), hsz]; simp
+      | some q =>
+        obtain ⟨i, l⟩ := q
+        rw [hs] at hsz; simp only [Option.map_some] at hsz ⊢
+        obtain ⟨k, e1, e2, e3, e4, e5⟩ := hsz
+        have hll : l < B := by rw [← e3]; exact getD_lt hrest k
+        obtain ⟨c1, c2, c3⟩ := ctz_spec l e4 hll
+        have hr64 : (i * 64 + ctz l) / 64 = i := by omega
+        have hr64' : (i * 64 + ctz l) % 64 = ctz l := by omega
+        refine ⟨by omega, ?_, ?_, by omega⟩
+        · rw [limbBit_rest _ _ _ _ (by omega), hr64, hr64', e1]
+          have : p + 1 + k - (p + 1) = k := by omega
+          rw [this, e3]; exact c2
+        · intro j hj hjr
+          by_cases hjp : j / 64 = p
+          · exact hfirst0 hm j hj hjp
+          · rw [limbBit_rest _ _ _ _ (by omega)]
+            by_cases hjk : j / 64 - (p + 1) < k
+            · rw [e5 _ hjk]; simp
+            · have : j / 64 - (p + 1) = k := by omega
+              rw [this, e3]
+              exact c3 _ (by omega)
+  · rw [if_neg hm]
+    simp only
+    obtain ⟨c1, c2, c3⟩ := ctz_spec _ hm hmlt
+    have hc := hmbit (ctz (limb &&& maskHi (start % 64)))
+    rw [c2] at hc
+    have hc' : limb.testBit (ctz (limb &&& maskHi (start % 64))) = true ∧
+        start % 64 ≤ ctz (limb &&& maskHi (start % 64)) := by
+      simp at hc; exact ⟨hc.1, hc.2.1⟩
+    have hr64 : (p * 64 + ctz (limb &&& maskHi (start % 64))) / 64 = p := by omega
+    have hr64' : (p * 64 + ctz (limb &&& maskHi (start % 64))) % 64 = ctz (limb &&& maskHi (start % 64)) := by omega
+    refine ⟨by omega, ?_, ?_, by omega⟩
+    · rw [limbBit_first _ _ _ _ hr64, hr64']; exact hc'.1
+    · intro j hj hjr
+      have hjp : j / 64 = p := by omega
+      rw [limbBit_first _ _ _ _ hjp]
+      have := hmbit (j % 64)
+      rw [c3 _ (by omega)] at this
+      have h1 : start % 64 ≤ j % 64 := by omega
+      have h2 : j % 64 < 64 := Nat.mod_lt _ (by decide)
+      simp [h1, h2] at this; exact this
+
+theorem testBit_ones (t : Nat) : (B - 1).testBit t = decide (t < 64) := by
+  unfold B; exact Nat.testBit_two_pow_sub_one 64 t
+
+/-- a limb that is not all ones has a zero bit; `ctz (~l)` is the lowest one -/
+theorem ctz_lnot_spec (l : Nat) (hl : l < B) (hne : l ≠ B - 1) :
+    ctz (lnotL l) < 64 ∧ l.testBit (ctz (lnotL l)) = false ∧ ∀ t, t < ctz (lnotL l) → l.testBit t = true := by
+  have hn0 : lnotL l ≠ 0 := by unfold lnotL; omega
+  have hnl : lnotL l < B := by unfold lnotL; have := B_pos; omega
+  obtain ⟨c1, c2, c3⟩ := ctz_spec _ hn0 hnl
+  refine ⟨c1, ?_, ?_⟩
+  · rw [testBit_lnotL l hl] at c2; simp [c1] at c2; exact c2
+  · intro t ht
+    have := c3 t ht
+    rw [testBit_lnotL l hl] at this
+    have h64 : t < 64 := by omega
+    simp [h64] at this; exact this
+
+/-- scan0.c:56-65 / scan1.c:113-130 -/
+theorem seekZero_spec (limb : Nat) (rest : List Nat) (p start : Nat) (hl : Limbs (limb :: rest))
+    (hp : start / 64 = p) :
+    start ≤ seekZero limb rest p start (p + 1 + rest.length) ∧
+    limbBit (limb :: rest) p (seekZero limb rest p start (p + 1 + rest.length)) = false ∧
+    (∀ j, start ≤ j → j < seekZero limb rest p start (p + 1 + rest.length) →
+      limbBit (limb :: rest) p j = true) ∧
+    seekZero limb rest p start (p + 1 + rest.length) ≤ (p + 1 + rest.length) * 64 := by
+  have ⟨hlimb, hrest⟩ := Limbs_cons.mp hl
+  have hs64 : start % 64 < 64 := Nat.mod_lt _ (by decide)
+  have hmlo := maskLo_lt (start % 64) (by omega)
+  have horlt : limb ||| maskLo (start % 64) < B := by
+    unfold B at *; exact Nat.or_lt_two_pow hlimb hmlo
+  have hobit : ∀ t, (limb ||| maskLo (start % 64)).testBit t = (limb.testBit t || decide (t < start % 64)) := by
+    intro t; rw [Nat.testBit_or, testBit_maskLo]
+  unfold seekZero
+  have hso := skipOnes_spec ((limb ||| maskLo (start % 64)) :: rest) p
+  cases hs : skipOnes ((limb ||| maskLo (start % 64)) :: rest) p with
+  | none =>
+    rw [hs] at hso; simp only at hso ⊢
+    have hfirst : ∀ t, start % 64 ≤ t → t < 64 → limb.testBit t = true := by
+      intro t h1 h2
+      have h0 := hso 0 (by simp)
+      simp only [List.getD_cons_zero] at h0
+      have := hobit t
+      rw [h0, testBit_ones] at this
+      have h3 : ¬ t < start % 64 := by omega
+      simp [h2, h3] at this; exact this
+    refine ⟨by omega, ?_, ?_, le_refl _⟩
+    · unfold limbBit
+      have : (p + 1 + rest.length) * 64 / 64 - p = rest.length + 1 := by omega
+      rw [this]; simp
+    · intro j hj hjr
+      by_cases hjp : j / 64 = p
+      · rw [limbBit_first _ _ _ _ hjp]; exact hfirst _ (by omega) (Nat.mod_lt _ (by decide))
+      · rw [limbBit_rest _ _ _ _ (by omega)]
+        have := hso (j / 64 - (p + 1) + 1) (by simp; omega)
+        simp only [List.getD_cons_succ] at this
+        rw [this, testBit_ones]; simp; exact Nat.mod_lt _ (by decide)
+  | some q =>
+    obtain ⟨i, l⟩ := q
+    rw [hs] at hso; simp only at hso ⊢
+    obtain ⟨k, e1, e2, e3, e4, e5⟩ := hso
+    cases k with
+    | zero =>
+      simp only [List.getD_cons_zero] at e3
+      subst e3
+      obtain ⟨c1, c2, c3⟩ := ctz_lnot_spec _ horlt e4
+      have hc := hobit (ctz (lnotL (limb ||| maskLo (start % 64))))
+      rw [c2] at hc
+      have hc' : limb.testBit (ctz (lnotL (limb ||| maskLo (start % 64)))) = false ∧
+          start % 64 ≤ ctz (lnotL (limb ||| maskLo (start % 64))) := by
+        have := hc.symm; simp at this; exact this
+      have hi : i = p := by omega
+      subst hi
+      have hr64 : (i * 64 + ctz (lnotL (limb ||| maskLo (start % 64)))) / 64 = i := by omega
+      have hr64' : (i * 64 + ctz (lnotL (limb ||| maskLo (start % 64)))) % 64 =
+          ctz (lnotL (limb ||| maskLo (start % 64))) := by omega
+      refine ⟨by omega, ?_, ?_, by omega⟩
+      · rw [limbBit_first _ _ _ _ hr64, hr64']; exact hc'.1
+      · intro j hj hjr
+        have hjp : j / 64 = i := by omega
+        rw [limbBit_first _ _ _ _ hjp]
+        have := hobit (j % 64)
+        rw [c3 _ (by omega)] at this
+        have h3 : ¬ j % 64 < start % 64 := by omega
+        simp [h3] at this; exact this
+    | succ k =>
+      simp only [List.getD_cons_succ, List.length_cons] at e2 e3
+      have hll : l < B := by rw [← e3]; exact getD_lt hrest k
+      obtain ⟨c1, c2, c3⟩ := ctz_lnot_spec l hll e4
+      have hfirst : ∀ t, start % 64 ≤ t → t < 64 → limb.testBit t = true := by
+        intro t h1 h2
+        have h0 := e5 0 (by omega)
+        simp only [List.getD_cons_zero] at h0
+        have := hobit t
+        rw [h0, testBit_ones] at this
+        have h3 : ¬ t < start % 64 := by omega
+        simp [h2, h3] at this; exact this
+      have hr64 : (i * 64 + ctz (lnotL l)) / 64 = i := by omega
+      have hr64' : (i * 64 + ctz (lnotL l)) % 64 = ctz (lnotL l) := by omega
+      refine ⟨by omega, ?_, ?_, by omega⟩
+      · rw [limbBit_rest _ _ _ _ (by omega), hr64, hr64']
+        have : i - (p + 1) = k := by omega
+        rw [this, e3]; exact c2
+      · intro j hj hjr
+        by_cases hjp : j / 64 = p
+        · rw [limbBit_first _ _ _ _ hjp]; exact hfirst _ (by omega) (Nat.mod_lt _ (by decide))
+        · rw [limbBit_rest _ _ _ _ (by omega)]
+          by_cases hjk : j / 64 - (p + 1) < k
+          · have := e5 (j / 64 - (p + 1) + 1) (by omega)
+            simp only [List.getD_cons_succ] at this
+            rw [this, testBit_ones]; simp; exact Nat.mod_lt _ (by decide)
+          · have : j / 64 - (p + 1) = k := by omega
+            rw [this, e3]
+            exact c3 _ (by omega)
+
+/-- limb `k` of the infinite two's-complement expansion of `u` -/
+def E (u : Z) (k : Nat) : Nat :=
+  if u.neg then (if k < u.mag.length then twosLimb u.mag k else B - 1) else u.mag.getD k 0
+
+theorem testBit_E (u : Z) (hu : u.WF) (j : Nat) : testBit u.toInt j = (E u (j / 64)).testBit (j % 64) := by
+  unfold E
+  have h64 : j % 64 < 64 := Nat.mod_lt _ (by decide)
+  cases hn : u.neg
+  · rw [toInt_nonneg u hn]; simp only [Bool.false_eq_true, ↓reduceIte]
+    exact testBit_val u.mag hu.limbs j
+  · rw [toInt_neg u hn (hu.pos hn)]; simp only [↓reduceIte]
+    change (!(val u.mag - 1).testBit j) = _
+    by_cases hk : j / 64 < u.mag.length
+    · rw [if_pos hk, testBit_pred u.mag hu.limbs (hu.pos hn) j hk]; simp
+    · rw [if_neg hk, testBit_high u.mag hu.limbs j (by omega) _ (Nat.sub_le _ _), testBit_ones]; simp [h64]
+
+theorem any_take_iff (mag : List Nat) (h1 : 1 ≤ val mag) (k : Nat) :
+    (mag.take k).any (· != 0) = true ↔ zeroBound mag < k := by
+  obtain ⟨_, _, z3, z4⟩ := zeroBound_spec mag h1
+  constructor
+  · intro h
+    by_contra hle
+    have := (val_eq_zero_iff _).mp (z3 k (by omega))
+    rw [this] at h; cases h
+  · intro h
+    have := z4 k h
+    cases hany : (mag.take k).any (· != 0)
+    · rw [(val_eq_zero_iff _).mpr hany] at this; omega
+    · rfl
+
+theorem lnotL_lnotL (y : Nat) (hy : y < B) : lnotL (lnotL y) = y := by unfold lnotL; omega
+
+/-- above the lowest non-zero limb the expansion is the one's complement of the magnitude limb
+    (also beyond the operand: `~0`) -/
+theorem E_above (u : Z) (hu : u.WF) (hn : u.neg = true) (k : Nat) (hk : zeroBound u.mag < k) :
+    E u k = lnotL (u.mag.getD k 0) := by
+  unfold E; rw [hn]; simp only [↓reduceIte]
+  by_cases hkn : k < u.mag.length
+  · rw [if_pos hkn]; unfold twosLimb; simp only
+    rw [(any_take_iff u.mag (hu.pos hn) k).mpr hk, if_pos rfl]
+    have hd := getD_lt hu.limbs k
+    have := lnot_ones _ hd
+    rw [← this, lnotL_lnotL _ (Nat.mod_lt _ B_pos), this]
+  · rw [if_neg hkn, List.getD_eq_getElem?_getD, List.getElem?_eq_none (by omega)]; rfl
+
+/-- at or below the lowest non-zero limb it is the two's complement `-limb` -/
+theorem E_at (u : Z) (hu : u.WF) (hn : u.neg = true) (k : Nat) (hk : k ≤ zeroBound u.mag) :
+    E u k = negL (u.mag.getD k 0) := by
+  obtain ⟨z1, _, _, _⟩ := zeroBound_spec u.mag (hu.pos hn)
+  unfold E; rw [hn]; simp only [↓reduceIte]
+  rw [if_pos (by omega)]; unfold twosLimb; simp only
+  have : ¬ ((u.mag.take k).any (· != 0) = true) := by
+    rw [any_take_iff u.mag (hu.pos hn) k]; omega
+  rw [if_neg this]
+
+theorem limb_below_zb (mag : List Nat) (h1 : 1 ≤ val mag) (k : Nat) (hk : k < zeroBound mag) :
+    mag.getD k 0 = 0 := by
+  obtain ⟨z1, _, z3, _⟩ := zeroBound_spec mag h1
+  have e1 := z3 (k + 1) (by omega)
+  have hkl : k < mag.length := by omega
+  rw [List.take_add_one, val_append] at e1
+  have hp := pow_B_pos (mag.take k).length
+  have : val (mag[k]?).toList = 0 := by
+    rcases Nat.eq_zero_or_pos (val (mag[k]?).toList) with h0 | h0
+    · exact h0
+    · have := Nat.mul_pos hp h0; omega
+  rw [List.getD_eq_getElem?_getD, List.getElem?_eq_getElem hkl] at *
+  simpa using this
+
+/-- first index ≥ start whose bit equals `b` -/
+def FirstBit (x : Int) (b : Bool) (start r : Nat) : Prop :=
+  start ≤ r ∧ testBit x r = b ∧ ∀ j, start ≤ j → j < r → testBit x j = !b
+
+theorem limbBit_drop (mag : List Nat) (sl j : Nat) (h : sl ≤ j / 64) :
+    limbBit (mag.getD sl 0 :: mag.drop (sl + 1)) sl j = (mag.getD (j / 64) 0).testBit (j % 64) := by
+  unfold limbBit
+  congr 1
+  by_cases he : j / 64 = sl
+  · rw [he, Nat.sub_self]; rfl
+  · have : j / 64 - sl = (j / 64 - (sl + 1)) + 1 := by omega
+    rw [this, List.getD_cons_succ, List.getD_eq_getElem?_getD, List.getElem?_drop,
+      List.getD_eq_getElem?_getD]
+    congr 2; omega
+
+/-- for a negative operand, at or above its lowest non-zero limb, the expansion is the complement of the limb
+    list `c :: mag.drop (sl+1)` where `c` is the adjusted limb the C works with -/
+theorem inverted_view (u : Z) (hu : u.WF) (hn : u.neg = true) (sl start : Nat) (hsl : start / 64 = sl)
+    (hzb : zeroBound u.mag ≤ sl) (c : Nat) (hc : c < B) (hE : E u sl = lnotL c) (j : Nat) (hj : start ≤ j) :
+    testBit u.toInt j = !limbBit (c :: u.mag.drop (sl + 1)) sl j := by
+  have h64 : j % 64 < 64 := Nat.mod_lt _ (by decide)
+  rw [testBit_E u hu]
+  by_cases hjs : j / 64 = sl
+  · rw [limbBit_first _ _ _ _ hjs, hjs, hE, testBit_lnotL c hc]; simp [h64]
+  · have hgt : sl < j / 64 := by omega
+    rw [limbBit_rest _ _ _ _ hgt, E_above u hu hn _ (by omega), testBit_lnotL _ (getD_lt hu.limbs _)]
+    rw [List.getD_eq_getElem?_getD (l := u.mag.drop (sl + 1)), List.getElem?_drop, List.getD_eq_getElem?_getD]
+    have : sl + 1 + (j / 64 - (sl + 1)) = j / 64 := by omega
+    rw [this]; simp [h64]
+
+theorem Limbs_view (mag : List Nat) (hl : Limbs mag) (c sl : Nat) (hc : c < B) :
+    Limbs (c :: mag.drop (sl + 1)) := Limbs_cons.mpr ⟨hc, Limbs_drop hl _⟩
+
+theorem view_len (mag : List Nat) (sl : Nat) (h : sl < mag.length) :
+    sl + 1 + (mag.drop (sl + 1)).length = mag.length := by rw [List.length_drop]; omega
+
+theorem scan1_inverted (u : Z) (hu : u.WF) (hn : u.neg = true) (sl start : Nat) (hsl : start / 64 = sl)
+    (hlt : sl < u.mag.length) (hzb : zeroBound u.mag ≤ sl) (c : Nat) (hc : c < B) (hE : E u sl = lnotL c) :
+    FirstBit u.toInt true start (seekZero c (u.mag.drop (sl + 1)) sl start u.mag.length) := by
+  obtain ⟨s1, s2, s3, _⟩ := seekZero_spec c (u.mag.drop (sl + 1)) sl start (Limbs_view u.mag hu.limbs c sl hc) hsl
+  rw [view_len u.mag sl hlt] at s1 s2 s3
+  have hv := inverted_view u hu hn sl start hsl hzb c hc hE
+  refine ⟨s1, by rw [hv _ s1, s2]; rfl, fun j h1 h2 => by rw [hv _ h1, s3 j h1 h2]⟩
+
+theorem scan0_inverted (u : Z) (hu : u.WF) (hn : u.neg = true) (sl start : Nat) (hsl : start / 64 = sl)
+    (hzb : zeroBound u.mag ≤ sl) (c : Nat) (hc : c < B) (hE : E u sl = lnotL c) :
+    match seekOne c (u.mag.drop (sl + 1)) sl start with
+    | some r => FirstBit u.toInt false start r
+    | none => ∀ j, start ≤ j → testBit u.toInt j = true := by
+  have hs := seekOne_spec c (u.mag.drop (sl + 1)) sl start (Limbs_view u.mag hu.limbs c sl hc) hsl
+  have hv := inverted_view u hu hn sl start hsl hzb c hc hE
+  cases hso : seekOne c (u.mag.drop (sl + 1)) sl start with
+  | none =>
+    rw [hso] at hs; simp only at hs ⊢
+    intro j hj; rw [hv j hj, hs j hj]; rfl
+  | some r =>
+    rw [hso] at hs; simp only at hs ⊢
+    obtain ⟨s1, s2, s3, _⟩ := hs
+    exact ⟨s1, by rw [hv _ s1, s2]; rfl, fun j h1 h2 => by rw [hv _ h1, s3 j h1 h2]⟩
+
+theorem E_nonneg (u : Z) (hn : u.neg = false) (k : Nat) : E u k = u.mag.getD k 0 := by
+  unfold E; rw [hn]; simp
+
+theorem negL_eq_lnot (d : Nat) (hd : d < B) (h1 : d ≠ 0) : negL d = lnotL ((d + B - 1) % B) := by
+  rw [pred_mod_B d hd h1]
+  have := lnot_neg_pos d hd (by omega)
+  rw [← this, lnotL_lnotL _ (by unfold negL; exact Nat.mod_lt _ B_pos)]
+
+theorem negL_pos (d : Nat) (hd : d < B) (h1 : d ≠ 0) : negL d ≠ 0 ∧ negL d < B := by
+  unfold negL; rw [B_eq] at *; omega
+
+theorem mpz_scan1_cases (u : Z) (hu : u.WF) (start : Nat) :
+    FirstBit u.toInt true start (mpz_scan1 u start) ∨
+    (mpz_scan1 u start = BITCNT_MAX ∧ ∀ j, start ≤ j → testBit u.toInt j = false) := by
+  unfold mpz_scan1
+  simp only
+  have h64 : start % 64 < 64 := Nat.mod_lt _ (by decide)
+  by_cases hsl : start / 64 ≥ u.mag.length
+  · rw [if_pos hsl]
+    cases hn : u.neg
+    · right
+      simp only [Bool.not_false, ↓reduceIte, true_and]
+      intro j hj
+      rw [testBit_E u hu, E_nonneg u hn, List.getD_eq_getElem?_getD,
+        List.getElem?_eq_none (by omega)]; simp
+    · left
+      simp only [Bool.not_true, Bool.false_eq_true, ↓reduceIte]
+      refine ⟨le_refl _, ?_, fun j h1 h2 => by omega⟩
+      rw [testBit_E u hu]; unfold E; rw [hn]; simp only [↓reduceIte]
+      rw [if_neg (by omega), testBit_ones]; simp [h64]
+  · rw [if_neg hsl]
+    have hlt : start / 64 < u.mag.length := by omega
+    cases hn : u.neg
+    · simp only [Bool.not_false, ↓reduceIte]
+      have hs := seekOne_spec (u.mag.getD (start / 64) 0) (u.mag.drop (start / 64 + 1)) (start / 64) start
+        (Limbs_view u.mag hu.limbs _ _ (getD_lt hu.limbs _)) rfl
+      have hv : ∀ j, start ≤ j → testBit u.toInt j =
+          limbBit (u.mag.getD (start / 64) 0 :: u.mag.drop (start / 64 + 1)) (start / 64) j := by
+        intro j hj
+        rw [testBit_E u hu, E_nonneg u hn, limbBit_drop u.mag _ j (by omega)]
+      cases hso : seekOne (u.mag.getD (start / 64) 0) (u.mag.drop (start / 64 + 1)) (start / 64) start with
+      | none =>
+        rw [hso] at hs; simp only at hs
+        right; simp only [Option.getD_none]
+        exact ⟨trivial, fun j hj => by rw [hv j hj, hs j hj]⟩
+      | some r =>
+        rw [hso] at hs; simp only at hs
+        obtain ⟨s1, s2, s3, _⟩ := hs
+        left; simp only [Option.getD_some]
+        exact ⟨s1, by rw [hv _ s1, s2], fun j h1 h2 => by rw [hv _ h1, s3 j h1 h2]; rfl⟩
+    · left
+      simp only [Bool.not_true, Bool.false_eq_true, ↓reduceIte]
+      have h1 := hu.pos hn
+      obtain ⟨z1, z2, z3, z4⟩ := zeroBound_spec u.mag h1
+      by_cases hany : (u.mag.take (start / 64)).any (· != 0) = true
+      · rw [if_pos hany]
+        have hzb := (any_take_iff u.mag h1 _).mp hany
+        exact scan1_inverted u hu hn _ start rfl hlt (by omega) _ (getD_lt hu.limbs _)
+          (E_above u hu hn _ hzb)
+      · rw [if_neg hany]
+        have hzb : start / 64 ≤ zeroBound u.mag := by
+          by_contra h; exact hany ((any_take_iff u.mag h1 _).mpr (by omega))
+        by_cases hl0 : u.mag.getD (start / 64) 0 = 0
+        · rw [if_pos hl0]
+          have hzb' : start / 64 < zeroBound u.mag := by
+            rcases Nat.lt_or_ge (start / 64) (zeroBound u.mag) with h | h
+            · exact h
+            · have : start / 64 = zeroBound u.mag := by omega
+              rw [this] at hl0; exact absurd hl0 z2
+          have hsz := skipZero_spec (u.mag.drop (start / 64 + 1)) (start / 64 + 1)
+          have hget : ∀ k, (u.mag.drop (start / 64 + 1)).getD k 0 = u.mag.getD (start / 64 + 1 + k) 0 := by
+            intro k
+            rw [List.getD_eq_getElem?_getD, List.getElem?_drop, List.getD_eq_getElem?_getD]
+          cases hs : skipZero (u.mag.drop (start / 64 + 1)) (start / 64 + 1) with
+          | none =>
+            rw [hs] at hsz; simp only at hsz
+            have := hsz (zeroBound u.mag - (start / 64 + 1))
+            rw [hget] at this
+            have e : start / 64 + 1 + (zeroBound u.mag - (start / 64 + 1)) = zeroBound u.mag := by omega
+            rw [e] at this; exact absurd this z2
+          | some q =>
+            obtain ⟨i, l⟩ := q
+            rw [hs] at hsz; simp only at hsz ⊢
+            obtain ⟨k, e1, e2, e3, e4, e5⟩ := hsz
+            rw [hget] at e3
+            have hi : i = zeroBound u.mag := by
+              have a1 : ¬ (i < zeroBound u.mag) := by
+                intro hlt'
+                have := limb_below_zb u.mag h1 i hlt'
+                rw [e1, e3] at this; exact e4 this
+              have a2 : ¬ (zeroBound u.mag - (start / 64 + 1) < k) := by
+                intro hlt'
+                have := e5 _ hlt'
+                rw [hget] at this
+                have e : start / 64 + 1 + (zeroBound u.mag - (start / 64 + 1)) = zeroBound u.mag := by omega
+                rw [e] at this; exact z2 this
+              omega
+            have hlB : l < B := by rw [← e3]; exact getD_lt hu.limbs _
+            obtain ⟨n1, n2⟩ := negL_pos l hlB e4
+            obtain ⟨c1, c2, c3⟩ := ctz_spec (negL l) n1 n2
+            have hr64 : (i * 64 + ctz (negL l)) / 64 = i := by omega
+            have hr64' : (i * 64 + ctz (negL l)) % 64 = ctz (negL l) := by omega
+            have hEi : E u i = negL l := by
+              rw [E_at u hu hn i (by omega), ← e3, e1]
+            refine ⟨by omega, by rw [testBit_E u hu, hr64, hr64', hEi]; exact c2, ?_⟩
+            intro j hj1 hj2
+            rw [testBit_E u hu]
+            by_cases hji : j / 64 = i
+            · rw [hji, hEi]; exact c3 _ (by omega)
+            · have hjlt : j / 64 < zeroBound u.mag := by omega
+              rw [E_at u hu hn _ (by omega), limb_below_zb u.mag h1 _ hjlt]; simp [negL]
+        · rw [if_neg hl0]
+          have hzbe : start / 64 = zeroBound u.mag := by
+            by_contra hne
+            exact hl0 (limb_below_zb u.mag h1 _ (by omega))
+          have hd := getD_lt hu.limbs (start / 64)
+          exact scan1_inverted u hu hn _ start rfl hlt (by omega) _ (Nat.mod_lt _ B_pos)
+            (by rw [E_at u hu hn _ hzb]; exact negL_eq_lnot _ hd hl0)
+
+theorem mpz_scan0_cases (u : Z) (hu : u.WF) (start : Nat) :
+    FirstBit u.toInt false start (mpz_scan0 u start) ∨
+    (mpz_scan0 u start = BITCNT_MAX ∧ ∀ j, start ≤ j → testBit u.toInt j = true) := by
+  unfold mpz_scan0
+  simp only
+  have h64 : start % 64 < 64 := Nat.mod_lt _ (by decide)
+  by_cases hsl : start / 64 ≥ u.mag.length
+  · rw [if_pos hsl]
+    cases hn : u.neg
+    · left
+      simp only [Bool.not_false, ↓reduceIte]
+      refine ⟨le_refl _, ?_, fun j h1 h2 => by omega⟩
+      rw [testBit_E u hu, E_nonneg u hn, List.getD_eq_getElem?_getD,
+        List.getElem?_eq_none (by omega)]; simp
+    · right
+      simp only [Bool.not_true, Bool.false_eq_true, ↓reduceIte, true_and]
+      intro j hj
+      rw [testBit_E u hu]; unfold E; rw [hn]; simp only [↓reduceIte]
+      rw [if_neg (by omega), testBit_ones]; simp; exact Nat.mod_lt _ (by decide)
+  · rw [if_neg hsl]
+    have hlt : start / 64 < u.mag.length := by omega
+    cases hn : u.neg
+    · left
+      simp only [Bool.not_false, ↓reduceIte]
+      obtain ⟨s1, s2, s3, _⟩ := seekZero_spec (u.mag.getD (start / 64) 0) (u.mag.drop (start / 64 + 1))
+        (start / 64) start (Limbs_view u.mag hu.limbs _ _ (getD_lt hu.limbs _)) rfl
+      rw [view_len u.mag _ hlt] at s1 s2 s3
+      have hv : ∀ j, start ≤ j → testBit u.toInt j =
+          limbBit (u.mag.getD (start / 64) 0 :: u.mag.drop (start / 64 + 1)) (start / 64) j := by
+        intro j hj
+        rw [testBit_E u hu, E_nonneg u hn, limbBit_drop u.mag _ j (by omega)]
+      exact ⟨s1, by rw [hv _ s1, s2], fun j h1 h2 => by rw [hv _ h1, s3 j h1 h2]; rfl⟩
+    · simp only [Bool.not_true, Bool.false_eq_true, ↓reduceIte]
+      have h1 := hu.pos hn
+      obtain ⟨z1, z2, z3, z4⟩ := zeroBound_spec u.mag h1
+      have hd := getD_lt hu.limbs (start / 64)
+      by_cases hany : (u.mag.take (start / 64)).any (· != 0) = true
+      · rw [if_pos hany]
+        have hzb := (any_take_iff u.mag h1 _).mp hany
+        have := scan0_inverted u hu hn _ start rfl (by omega) _ hd (E_above u hu hn _ hzb)
+        cases hso : seekOne (u.mag.getD (start / 64) 0) (u.mag.drop (start / 64 + 1)) (start / 64) start with
+        | none => rw [hso] at this; right; exact ⟨rfl, this⟩
+        | some r => rw [hso] at this; left; exact this
+      · rw [if_neg hany]
+        have hzb : start / 64 ≤ zeroBound u.mag := by
+          by_contra h; exact hany ((any_take_iff u.mag h1 _).mpr (by omega))
+        have hcB : (u.mag.getD (start / 64) 0 + B - 1) % B < B := Nat.mod_lt _ B_pos
+        by_cases hzbe : start / 64 = zeroBound u.mag
+        · have hl0 : u.mag.getD (start / 64) 0 ≠ 0 := by rw [hzbe]; exact z2
+          have := scan0_inverted u hu hn _ start rfl (by omega) _ hcB
+            (by rw [E_at u hu hn _ hzb]; exact negL_eq_lnot _ hd hl0)
+          cases hso : seekOne ((u.mag.getD (start / 64) 0 + B - 1) % B) (u.mag.drop (start / 64 + 1))
+              (start / 64) start with
+          | none => rw [hso] at this; right; exact ⟨rfl, this⟩
+          | some r => rw [hso] at this; left; exact this
+        · -- below the lowest non-zero limb: the limb is 0, `limb - 1` is all ones, the answer is `start`
+          have hl0 := limb_below_zb u.mag h1 (start / 64) (by omega)
+          have hs := seekOne_spec ((u.mag.getD (start / 64) 0 + B - 1) % B) (u.mag.drop (start / 64 + 1))
+            (start / 64) start (Limbs_view u.mag hu.limbs _ _ hcB) rfl
+          have hc1 : (u.mag.getD (start / 64) 0 + B - 1) % B = B - 1 := by
+            rw [hl0, Nat.zero_add, Nat.mod_eq_of_lt (by have := B_pos; omega)]
+          have hbit : limbBit ((u.mag.getD (start / 64) 0 + B - 1) % B :: u.mag.drop (start / 64 + 1))
+              (start / 64) start = true := by
+            rw [limbBit_first _ _ _ _ rfl, hc1, testBit_ones]; simp [h64]
+          cases hso : seekOne ((u.mag.getD (start / 64) 0 + B - 1) % B) (u.mag.drop (start / 64 + 1))
+              (start / 64) start with
+          | none =>
+            rw [hso] at hs; simp only at hs
+            rw [hs start (le_refl _)] at hbit; cases hbit
+          | some r =>
+            rw [hso] at hs; simp only at hs
+            obtain ⟨s1, s2, s3, _⟩ := hs
+            have hr : r = start := by
+              by_contra hne
+              have := s3 start (le_refl _) (by omega)
+              rw [this] at hbit; cases hbit
+            left; simp only [Option.getD_some]
+            subst hr
+            refine ⟨le_refl _, ?_, fun j h1 h2 => by omega⟩
+            rw [testBit_E u hu, E_at u hu hn _ hzb, hl0]; simp [negL]
+
+theorem first_or_max {x : Int} {b : Bool} {start r : Nat}
+    (h : FirstBit x b start r ∨ (r = BITCNT_MAX ∧ ∀ j, start ≤ j → testBit x j = !b)) :
+    ((∃ j, start ≤ j ∧ Int.testBit x j = b) →
+      start ≤ r ∧ Int.testBit x r = b ∧ ∀ j, start ≤ j → j < r → Int.testBit x j = !b) ∧
+    ((∀ j, start ≤ j → Int.testBit x j = !b) → r = BITCNT_MAX) := by
+  simp only [← testBit_eq]
+  constructor
+  · rintro ⟨j, hj, hb⟩
+    rcases h with h | ⟨_, h⟩
+    · exact h
+    · have := h j hj; rw [hb] at this; cases b <;> cases this
+  · intro hall
+    rcases h with ⟨h1, h2, _⟩ | ⟨h, _⟩
+    · have := hall r h1; rw [h2] at this; cases b <;> cases this
+    · exact h
+
 end Mpir.Bits
